@@ -175,6 +175,9 @@ pub fn lock_unix_socket_path(path: &std::path::Path) -> std::io::Result<std::fs:
 }
 
 #[cfg(unix)]
+pub use unix_imp::LockedUnixListener;
+
+#[cfg(unix)]
 mod unix_imp {
     use futures::TryFutureExt;
 
@@ -201,6 +204,36 @@ mod unix_imp {
             //     return Ok(SocketAddr::UnixAbstract(p.to_vec()));
             // }
             Ok(None)
+        }
+    }
+
+    /// A listener on a Unix socket path together with the lock that guards the path
+    /// (see `lock_unix_socket_path`): whoever drops the listener releases the path.
+    pub struct LockedUnixListener {
+        listener: tokio::net::UnixListener,
+        _lock: std::fs::File,
+    }
+
+    impl LockedUnixListener {
+        pub fn new(listener: tokio::net::UnixListener, lock: std::fs::File) -> Self {
+            LockedUnixListener {
+                listener,
+                _lock: lock,
+            }
+        }
+    }
+
+    impl Acceptor for LockedUnixListener {
+        type Socket = tokio::net::UnixStream;
+
+        #[inline]
+        fn accept(&self) -> impl Future<Output = tokio::io::Result<Self::Socket>> + Send {
+            Acceptor::accept(&self.listener)
+        }
+
+        #[inline]
+        fn local_addr(&self) -> tokio::io::Result<Option<SocketAddr>> {
+            Acceptor::local_addr(&self.listener)
         }
     }
 
